@@ -664,7 +664,7 @@ theorem onEstablished_inv {s : Sess} (h : Inv s) (beh : List HAct) (m : InMsg) :
         split
         · exact InvRel.congr_left (by simp) (by simp) (InvRel.refl h1)
         · next hc => exact InvRel.congr_left (by simp) (by simp) (settle_inv h1 (by simpa using hb) (by simpa using hc) _)
-  | invocation id reg p rp => exact invLiftX.onInvocation h beh id reg p rp
+  | invocation id reg p rp => exact invLiftX.onInvocation h beh id reg p _
   | interrupt id => exact invLiftX.settleInv h id _
   | welcome sid => exact raise_inv h (by simp) (by simp)
   | abort => exact raise_inv h (by simp) (by simp)
